@@ -21,7 +21,7 @@ func c09Sizes() []int64 { return []int64{0, 1, 2047, 2048, 2049} }
 func TestC09(t *testing.T) {
 	r := NewReporter(t)
 	defer r.Done()
-	r.Rule("every tree with <= N nodes (file sizes 0,1,2047,2048,2049), both modes for a subset, plus the directory-shape families of C07 (entries per directory, exact sector fit, depth, many directories, symbolic links) with a reduced offset set: canonical image = one sequential read; then all single ops and op sequences of depth <= 3 (Seek.Read.Read, Read.ReadAt.Read, relative/end seeks, refused seeks followed by reads, one long-lived handle: whole pass, revisits, second pass; pairs of member files read in alternating pieces; whole passes and boundary reads over a filesystem whose files report EOF together with their last bytes; the same with the n-th Open/Close/Seek/Read/ReadAt on a member failing) over offsets = structural boundaries (metadata end, each file start/end/padded end, pad-area start, size) +-1 and lengths {1,2,2047,2048,2049,65536,65537, to-next-boundary +-1}; oracle = bytes.Reader semantics over the canonical image; distinct by (tree, mode, op sequence)")
+	r.Rule("every tree with <= N nodes (file sizes 0,1,2047,2048,2049), both modes for a subset, plus the directory-shape families of C07 (entries per directory, exact sector fit, depth, many directories, symbolic links) with a reduced offset set: canonical image = one sequential read; then all single ops and op sequences of depth <= 3 (Seek.Read.Read, Read.ReadAt.Read, relative/end seeks, refused seeks followed by reads, one long-lived handle: whole pass, revisits, second pass; all triples of sequential read sizes from {100, 4096, 65536, 65537, 131072}; pairs of member files read in alternating pieces; whole passes and boundary reads over a filesystem whose files report EOF together with their last bytes; the same with the n-th Open/Close/Seek/Read/ReadAt on a member failing) over offsets = structural boundaries (metadata end, each file start/end/padded end, pad-area start, size) +-1 and lengths {1,2,2047,2048,2049,65536,65537, to-next-boundary +-1}; oracle = bytes.Reader semantics over the canonical image; distinct by (tree, mode, op sequence)")
 	base := filepath.Join(scratchBase(), sprintf("verifh-c09-%d", os.Getpid()))
 	root := filepath.Join(base, "root")
 	defer os.RemoveAll(base)
@@ -233,6 +233,23 @@ func c09Case(r *Reporter, root, desc string, treeRep any, build func(dir string)
 			ops = append(ops, ioOp{Kind: "read", N: bs})
 		}
 		run(ops)
+	}
+	// sequential reads of mixed sizes on one handle (below, at and above typical transfer and read-ahead buffer
+	// sizes, in every order of three): whatever is buffered in front of the cursor must follow it
+	if !light {
+		ms := []int{100, 4096, 65536, 65537, 131072}
+		for _, a := range ms {
+			for _, b := range ms {
+				for _, c := range ms {
+					if !run([]ioOp{{Kind: "read", N: a}, {Kind: "read", N: b}, {Kind: "read", N: c}, {Kind: "read", N: a}, {Kind: "seek", Off: 0, Whence: io.SeekCurrent}, {Kind: "read", N: 100}}) {
+						bad++
+					}
+					if bad > 12 {
+						return
+					}
+				}
+			}
+		}
 	}
 	// one handle used for a long time: a whole sequential pass, then back to every kept boundary (positional and by
 	// seeking), then a second whole pass - whatever the view caches per file must survive being revisited
